@@ -338,6 +338,52 @@ impl Feed {
     }
 }
 
+/// A source prepared according to a feed, either already wrapped into a `DeferredReader` (when a
+/// chunk size has to be set) or still raw, so that the parsers' own `from_read` /
+/// `from_boxed_dyn_read` / `from_buf_reader` constructors can be exercised.
+pub enum Init {
+    Reader(DeferredReader<'static>),
+    Read(Source),
+    Boxed(Source),
+    Buf(BufReader<Source>),
+}
+
+impl Init {
+    pub fn into_reader(self) -> DeferredReader<'static> {
+        match self {
+            Init::Reader(r) => r,
+            Init::Read(s) => DeferredReader::from_read(s),
+            Init::Boxed(s) => DeferredReader::from_boxed_dyn_read(Box::new(s)),
+            Init::Buf(b) => DeferredReader::from_buf_reader(b),
+        }
+    }
+}
+
+pub fn build_init(
+    data: Rc<Vec<u8>>,
+    feed: &Feed,
+    cuts: Option<Rc<Vec<usize>>>,
+) -> (Init, Rc<RefCell<SrcLog>>) {
+    if feed.chunk.is_some() {
+        let (r, log) = build_reader(data, feed, cuts);
+        return (Init::Reader(r), log);
+    }
+    let (src, log) = Source::with_cuts(data, feed.sched.clone(), cuts);
+    let init = match feed.ctor {
+        Ctor::FromRead => Init::Read(src),
+        Ctor::Boxed => Init::Boxed(src),
+        Ctor::BufReader(cap) => {
+            let prefill = src.prefill.clone();
+            *prefill.borrow_mut() = true;
+            let mut br = BufReader::with_capacity(cap.max(1), src);
+            let _ = br.fill_buf();
+            *prefill.borrow_mut() = false;
+            Init::Buf(br)
+        }
+    };
+    (init, log)
+}
+
 pub fn build_reader(
     data: Rc<Vec<u8>>,
     feed: &Feed,
